@@ -1,5 +1,89 @@
+(* C27 — remote SFTP files behave like local Python binary files.
+   Property statements only; every proof is `exact <lemma from Proofs/C27_proofs.v>`.
+
+   Full statement (C27_refines), NOT proved and in fact false for the code as it is (see the
+   _refuted theorems): for every mode in {r, r+, w, w+, a, a+, x}, buffer size, initial file and
+   op sequence over read / readline / readlines / write / seek / tell / truncate / flush,
+       fst (sf_run fuel f0 ops) = fst (ref_run r0 ops)  /\
+       final_content fuel (snd (sf_run fuel f0 ops)) = r_content (snd (ref_run r0 ops)).
+   What is proved: C27_refines_partial — the same conclusion for every op sequence made of
+   read(n) / read() / readline(size) / seek / tell (read_only_op), every readable mode, buffer
+   size, initial file and chunk behaviour of the server; missing cases: write, flush, truncate,
+   readlines, and the non-readable modes (w, a, x), which are covered by the differential run
+   only.  sf_* is the model of SFTPFile over BufferedFile (C42) over the server handle with its
+   __tell cache; ref_* is Lib/FileSpec.v. *)
 From PV Require Import Bytes C42 C42_proofs FileSpec C27 C27_proofs.
 Open Scope Z_scope.
-Theorem C27_placeholder : MAX_REQUEST_SIZE = 32768.
-Proof. exact c27_placeholder. Qed.
-Print Assumptions C27_placeholder.
+
+Theorem C27_refines_partial :
+  forall (m : fmode) (bufsz : Z) (file : option (list Z)) (ops : list fop) (fuel : nat)
+         (f0 : sfile) (r0 : rfile),
+    sf_open m bufsz file = Some f0 -> ref_open m file = Some r0 ->
+    m_read m = true -> forallb read_only_op ops = true ->
+    (length (r_content r0) < fuel)%nat ->
+    fst (sf_run fuel f0 ops) = fst (ref_run r0 ops) /\
+    final_content fuel (snd (sf_run fuel f0 ops)) = r_content (snd (ref_run r0 ops)).
+Proof. exact refines_partial. Qed.
+Print Assumptions C27_refines_partial.
+
+(* open() succeeds remotely exactly when it succeeds locally: every mode, missing or existing file *)
+Theorem C27_open_agrees :
+  forall (m : fmode) (bufsz : Z) (file : option (list Z)),
+    sf_open m bufsz file = None <-> ref_open m file = None.
+Proof. exact open_agrees. Qed.
+Print Assumptions C27_open_agrees.
+
+(* the server handle (after the repair of the append-mode __tell cache) serves exactly the bytes
+   at the requested offset, whatever requests came before: it is a prefix reader *)
+Theorem C27_server_read_exact :
+  forall (c : list Z) (s : srv) (rp n : Z) (d : list Z) (s' : srv),
+    sInv c s rp -> 0 < n -> s_read s rp n = (d, s') ->
+    sRem s rp = d ++ sRem s' (rp + zlen d) /\ zlen d <= n /\ (d = [] -> sRem s rp = []) /\
+    sInv c s' (rp + zlen d).
+Proof. exact s_read_spec. Qed.
+Print Assumptions C27_server_read_exact.
+
+(* ---- divergences of the code as it is (known findings), each a concrete witness ---- *)
+Theorem C27_read_with_pending_write_refuted :
+  diverges Mrp 8 [10;10;121;10;121] [FWrite [97;10;97;97]; FReadline None].
+Proof. exact refuted_read_pending. Qed.
+Print Assumptions C27_read_with_pending_write_refuted.
+
+Theorem C27_tell_with_pending_write_refuted : diverges Mw 65536 [] [FWrite [97;98;99]; FTell].
+Proof. exact refuted_tell_pending. Qed.
+Print Assumptions C27_tell_with_pending_write_refuted.
+
+Theorem C27_write_after_readline_refuted :
+  diverges Mrp 0 [97;10;98;10;99] [FReadline None; FWrite [88]].
+Proof. exact refuted_write_after_readline. Qed.
+Print Assumptions C27_write_after_readline_refuted.
+
+Theorem C27_truncate_with_pending_write_refuted : diverges Mw 64 [] [FWrite [97;98]; FTruncate 0].
+Proof. exact refuted_truncate_pending. Qed.
+Print Assumptions C27_truncate_with_pending_write_refuted.
+
+Theorem C27_truncate_read_only_refuted : diverges Mr 0 [97;98;99] [FTruncate 1].
+Proof. exact refuted_truncate_readonly. Qed.
+Print Assumptions C27_truncate_read_only_refuted.
+
+Theorem C27_stale_after_truncate_refuted :
+  diverges Ma 0 [] [FWrite [97;98]; FTruncate 0; FWrite [99]; FTell].
+Proof. exact refuted_stale_after_truncate. Qed.
+Print Assumptions C27_stale_after_truncate_refuted.
+
+Theorem C27_bare_x_refuted :
+  exists f0 r0, sf_open Mxbare 0 None = Some f0 /\ ref_open Mxbare None = Some r0 /\
+    fst (sf_run 100 f0 [FWrite [97]]) <> fst (ref_run r0 [FWrite [97]]).
+Proof. exact refuted_bare_x. Qed.
+Print Assumptions C27_bare_x_refuted.
+
+(* non-vacuity of C27_refines_partial: an "a+" file with bufsize 3, mixed reads and seeks incl.
+   a rejected negative seek, meets the hypotheses; the results are the reference's *)
+Example C27_example :
+  let file := Some [97;98;10;99;100;10;101] in
+  let ops := [FTell; FSeek 0 0; FReadline None; FRead (Some 2); FSeek (-9) 1; FSeek (-3) 2; FRead None; FTell] in
+  exists f0 r0, sf_open Map 3 file = Some f0 /\ ref_open Map file = Some r0 /\
+    m_read Map = true /\ forallb read_only_op ops = true /\
+    fst (sf_run 20 f0 ops) =
+      [FInt 7; FNone; FBytes [97;98;10]; FBytes [99;100]; FExn; FNone; FBytes [100;10;101]; FInt 7].
+Proof. eexists _, _. repeat split. Qed.
